@@ -916,16 +916,19 @@ static void desc(const std::string &d) {
   printf("\n");
 }
 static void outs(const char *w, int k, const std::string &s) { printf("%s %ld %d", w, sid, k); pr_bytes(s); printf("\n"); }
-struct Fl { int base, showbase, showpos, upper, adj, width; char fill; };
+struct Fl { int base, showbase, showpos, upper, adj, width; char fill; int multi; };   /* multi: 0 = one basefield bit; 1 dec|hex, 2 hex|oct, 3 dec|oct|hex, 4 no bit: the standard says decimal */
 static void apply(std::ios &o, const Fl &f) {
   o.setf(f.base == 16 ? std::ios::hex : f.base == 8 ? std::ios::oct : std::ios::dec, std::ios::basefield);
+  if (f.multi) { o.unsetf(std::ios::basefield);
+    if (f.multi == 1) o.setf(std::ios::dec | std::ios::hex); else if (f.multi == 2) o.setf(std::ios::hex | std::ios::oct);
+    else if (f.multi == 3) o.setf(std::ios::dec | std::ios::oct | std::ios::hex); }
   if (f.showbase) o.setf(std::ios::showbase); if (f.showpos) o.setf(std::ios::showpos); if (f.upper) o.setf(std::ios::uppercase);
   if (f.adj == 1) o.setf(std::ios::left, std::ios::adjustfield); else if (f.adj == 2) o.setf(std::ios::right, std::ios::adjustfield);
   else if (f.adj == 3) o.setf(std::ios::internal, std::ios::adjustfield);
   o.width(f.width); o.fill(f.fill);
 }
 static std::string fdesc(const Fl &f) {
-  char b[200]; snprintf(b, sizeof b, "base=%d showbase=%d showpos=%d uppercase=%d adjust=%s width=%d fill='%c'", f.base, f.showbase, f.showpos, f.upper,
+  char b[200]; snprintf(b, sizeof b, "base=%d multi=%d showbase=%d showpos=%d uppercase=%d adjust=%s width=%d fill='%c'", f.base, f.multi, f.showbase, f.showpos, f.upper,
     f.adj == 0 ? "none" : f.adj == 1 ? "left" : f.adj == 2 ? "right" : "internal", f.width, f.fill); return b;
 }
 /* reference: [sign][base prefix][digits of mpz_get_str], padded with the fill character to the width */
@@ -962,10 +965,12 @@ static std::string ref_q(mpq_srcptr q, const Fl &f) {
 }
 static void io_ostream(const VS *vs, int nvs, int full) {
   static const int bases[] = {10, 16, 8}, widths[] = {0, 3, 24}; static const char fills[] = {' ', '*', '0'};
+  for (int mb = 0; mb < 5; mb++)
   for (int bi = 0; bi < 3; bi++) for (int sb = 0; sb < 2; sb++) for (int sp = 0; sp < 2; sp++) for (int up = 0; up < 2; up++)
   for (int adj = 0; adj < 4; adj++) for (int wi = 0; wi < 3; wi++) for (int fi = 0; fi < 3; fi++) {
     if (wi == 0 && (fi > 0 || adj > 1)) continue;
-    Fl f = { bases[bi], sb, sp, up, adj, widths[wi], fills[fi] };
+    if (mb && (bi || adj > 1 || wi == 1 || fi)) continue;        /* multi-bit basefield: decimal semantics, a slice of the other flags */
+    Fl f = { bases[bi], sb, sp, up, adj, widths[wi], fills[fi], mb };
     for (int ty = 0; ty < 3; ty++) {     /* 0: mpz_class, 1: mpq_class, 2: an mpz expression */
       if (!full && ty == 2 && (adj != 3 || wi != 2)) continue;
       desc(std::string(ty == 0 ? "os << Z[0]; " : ty == 1 ? "os << Q[0]; " : "os << (Z[0] * Z[1] - Z[2]); ") + fdesc(f));
